@@ -99,6 +99,12 @@ def expand_trig_helpers(ctx: Any, mt: Any, qual: str, body: List[ast.stmt]) -> L
 
 
 def entries_from_env(env: Dict[str, Any], prefix: str) -> Dict[str, Poly]:
+    if f'{prefix}aa' not in env:
+        # the local holding the object under construction may be called anything: take the one receiver all nine entries were stored on
+        cands = sorted({k[:-2] for k in env if k.endswith('._aa') and all(isinstance(env.get(k[:-2] + s_), Poly) for s_ in SLOTS)})
+        cands = [c for c in cands if not c.startswith('self.')] or cands
+        if len(cands) == 1:
+            prefix = cands[0]
     out = {}
     for s in SLOTS:
         k = f'{prefix}{s}'
@@ -255,7 +261,7 @@ def run(ctx: Any, prog: Program) -> None:
     res = PolyInterp(ROLES.get, lambda k: ('M_' + k[6:]) if k.startswith('self._') and k[6:] in SLOTS else k, filename=mt.relpath, call_hook=tr_hook).run(body_of(tr))
     if len(res) != 1:
         raise AnalysisError('transpose is not straight-line')
-    if raw_args and all(isinstance(x, Poly) for x in raw_args) and 'rot._aa' not in res[0].env:
+    if raw_args and all(isinstance(x, Poly) for x in raw_args) and not any(k.endswith('._aa') and not k.startswith('self.') for k in res[0].env):
         T = dict(zip(SLOTS, raw_args))
     else:
         T = entries_from_env(res[0].env, 'rot._')
@@ -566,14 +572,18 @@ def a8_pivoting(ctx: Any, mt: Any) -> None:
     bound - can pick a tiny pivot although a good one exists: a rotation with cos(angle) = 6e-17 (90 degrees in floats) or 1e-6 (an exact
     rotation) is then reported as having no inverse, although its inverse is its transpose."""
     inv = mt.func('MatrixBase.inverse')
-    sel = [l for l in ast.walk(inv) if isinstance(l, ast.For) and any(isinstance(a, ast.Assign) and any(dotted(t) == 'pivrow' for t in a.targets) and isinstance(a.value, ast.Name) and a.value.id == dotted(l.target)
+    # the pivot-row local: assigned the loop variable of a row search (`<p> = m` inside `for m in ...`) and also tested against -1
+    piv_cands = {t.id for l in ast.walk(inv) if isinstance(l, ast.For) and isinstance(l.target, ast.Name) for a in ast.walk(l) if isinstance(a, ast.Assign) and isinstance(a.value, ast.Name) and a.value.id == l.target.id
+                 for t in a.targets if isinstance(t, ast.Name)}
+    pivrow = sorted(piv_cands)[0] if len(piv_cands) == 1 else 'pivrow'
+    sel = [l for l in ast.walk(inv) if isinstance(l, ast.For) and any(isinstance(a, ast.Assign) and any(dotted(t) == pivrow for t in a.targets) and isinstance(a.value, ast.Name) and a.value.id == dotted(l.target)
                                                                      for a in ast.walk(l))]
     sel = [l for l in sel if not any(o is not l and any(x is o for x in ast.walk(l)) for o in sel)]      # innermost only
     if len(sel) != 1:
         ctx.shape('C04.A8', False, mt, inv, 'pivot selection loop (`pivrow = <loop variable>`) not found in inverse()', func='MatrixBase.inverse', text='pivot selection')
         return
     lp = sel[0]
-    guards = [i for i in ast.walk(lp) if isinstance(i, ast.If) and any(isinstance(a, ast.Assign) and any(dotted(t) == 'pivrow' for t in a.targets) for a in i.body)]
+    guards = [i for i in ast.walk(lp) if isinstance(i, ast.If) and any(isinstance(a, ast.Assign) and any(dotted(t) == pivrow for t in a.targets) for a in i.body)]
     if len(guards) != 1:
         ctx.shape('C04.A8', False, mt, lp, 'pivot selection test not recognised', func='MatrixBase.inverse', text='pivot selection')
         return
